@@ -53,9 +53,27 @@ def close(a, b, scale=1.0):
     return bool(np.all(np.abs(a - b) <= TOL * max(1.0, scale)))
 
 
+def _exact_ints(q):
+    """quantum numbers as exact Python integers (object array), so that charges beyond 2^53 are compared exactly even if the code
+    under test handed them back in a floating-point array"""
+    a = np.asarray(q)
+    out = np.empty(a.shape, dtype=object)
+    for idx in np.ndindex(*a.shape):
+        v = a[idx]
+        v = v.item() if hasattr(v, 'item') else v
+        if isinstance(v, complex) and v.imag == 0:
+            v = v.real
+        if isinstance(v, float) and v.is_integer():
+            v = int(v)
+        out[idx] = v
+    return out
+
+
 def qsparse_fail(A, qnums, what):
     import functools
-    mask = functools.reduce(np.add.outer, [np.asarray(q) for q in qnums])
+    mask = functools.reduce(np.add.outer, [_exact_ints(q) for q in qnums])
+    mask = np.array(mask == 0, dtype=bool).reshape(np.shape(A)) if np.size(A) else np.zeros(np.shape(A), dtype=bool)
+    mask = np.where(mask, 0, 1)
     bad = np.abs(np.where(mask == 0, 0, A)) > TOL * max(1.0, float(np.max(np.abs(A))) if A.size else 1.0)
     if np.any(bad):
         return [f'{what}: non-zero entry at {tuple(int(i) for i in np.argwhere(bad)[0])} violates the quantum-number rule']
@@ -88,8 +106,8 @@ def check_qr(inp):
         fails.append('Q @ R != A')
     if not close(Q.conj().T @ Q, np.identity(k)):
         fails.append('Q does not have orthonormal columns')
-    fails += qsparse_fail(Q, [q0, -np.asarray(qi)], 'Q')
-    fails += qsparse_fail(R, [np.asarray(qi), -q1], 'R')
+    fails += qsparse_fail(Q, [q0, -_exact_ints(qi)], 'Q')
+    fails += qsparse_fail(R, [_exact_ints(qi), -q1], 'R')
     if not np.array_equal(A, A0):
         fails.append('input matrix was modified')
     if len(np.intersect1d(q0, q1)) == 0 and (k != 1 or np.any(Q @ R != 0)):
@@ -621,6 +639,8 @@ def check_arith(inp):
             gs = _dense(res, 'mpo')
             if not close(gs, gs[0, 0] * np.identity(gs.shape[0]), abs(gs[0, 0])):
                 fails.append('scaled identity MPO is not proportional to the identity')
+            if inp['scale'] != 0 and abs(gs[0, 0]) == 0:
+                fails.append('identity MPO with a non-zero scale is the zero operator')
             operands_ = []; snap = []; rk = 'mpo'
             qd0 = qd.copy(); res.zero_qnumbers()
             if not np.array_equal(qd, qd0):
@@ -1288,6 +1308,16 @@ def _op_once(task, given, rng, focus):
             x.zero_qnumbers()
             if not np.array_equal(qd, qd0) or any(not np.array_equal(a, b) for a, b in zip(qD, qD0)):
                 fails.append('constructor result shares its quantum-number arrays with the arguments')
+    elif op == 'zero_qnumbers':
+        d, P, cls = task['d'], task['D'], task['cls']
+        qd, (qD,) = _mk_charges(task, d, [P], given, rng)
+        if task.get('free_boundary'):
+            qD[-1] = _charges('qtot', 1, given, rng)
+            if not np.any(qD[-1]):
+                qD[-1] = np.array([int(rng.integers(1, 3))])
+        x = _rand_obj(rng, cls, qd, qD)
+        x.zero_qnumbers()
+        results = [(x, cls, 'zero_qnumbers')]; pure = False
     elif op in ('orthonormalize', 'compress'):
         d, P = task['d'], task['D']
         cls = task.get('cls', 'mps')
